@@ -111,6 +111,10 @@ func c03ProgUnit(unit string, env *fw.Env) *fw.Result {
 			{big(30 * 1024), {Kind: "put", Key: "b", Val: "<big:30720>"}, {Kind: "put", Key: "c", Val: "<big:30720>"}}, // beyond the 64 KiB log buffer
 			{{Kind: "put", Key: "b"}, {Kind: "put", Key: "a", Val: "<big:40000>"}, {Kind: "del", Key: "c"}},               // one entry larger than a record: commit fails or applies completely
 			{{Kind: "put", Key: "a", Val: "<empty>"}, {Kind: "del", Key: "b"}},
+			// the same one byte beyond a record (17 + key + value = 32769) and exactly on it: the commit fails and
+			// leaves nothing, or succeeds completely
+			{{Kind: "put", Key: "a"}, {Kind: "put", Key: "b", Val: "<big:32751>"}, {Kind: "del", Key: "c"}},
+			{{Kind: "put", Key: "a"}, {Kind: "put", Key: "b", Val: "<big:32750>"}, {Kind: "del", Key: "c"}},
 		}
 		for _, pre := range [][]EngOp{nil, {{Kind: "put", Key: "a"}, {Kind: "put", Key: "c"}}} {
 			for _, sh := range shapes {
